@@ -17,7 +17,7 @@
    behaviour: their part of the model (urllib_outcome, u2_headers, the jar)
    is validated by correspondence only. *)
 From SV Require Import Lib.Base C15.Base64 Gen.C15Tables.
-Open Scope N_scope.
+Local Open Scope N_scope.
 
 Definition blob := N.
 Definition oblob_eqb (a b : option blob) : bool := opt_eqb N.eqb a b.
@@ -597,3 +597,23 @@ Definition tmo_spec_ok (c : tcase) : bool :=
   | MSend, Some t => if (0 <? t)%Z then (used =? t)%Z else true
   | _, _ => (used =? ot)%Z
   end.
+
+(* the parts of the session specification one by one (the harness uses them to name
+   the finding class of a failing session) *)
+Definition spec_part (n : N) (k : tkind) (c : creds) (history : list rev)
+                     (q : sreq) (p : sresp) (o : sobs) : bool :=
+  match n with
+  | 0 => spec_body q o
+  | 1 => spec_caller_headers q o && spec_soap_headers q o
+  | 2 => spec_cookies history q o
+  | 3 => spec_credentials k c p o
+  | _ => spec_result p o
+  end.
+Fixpoint session_part (n : N) (k : tkind) (c : creds) (history : list rev) (steps : list step) : bool :=
+  match steps with
+  | [] => true
+  | (q, p, o) :: rest =>
+      spec_part n k c history q p o && session_part n k c (history ++ response_events q p o) rest
+  end.
+Definition x_part_ok (n : N) (x : xcase) : bool :=
+  let '(k, c, steps) := x in session_part n k c [] steps.
